@@ -435,7 +435,7 @@ def _unit_paths(backend):
     return u.result()
 
 
-IDOPS = ("ins", "bulk2", "bulk2same", "repl", "del_oldest", "del_newest", "del_middle")
+IDOPS = ("ins", "bulk2", "bulk2same", "repl", "del_oldest", "del_newest", "del_middle", "ins_old", "repl_move")
 
 
 def _unit_ids(args):
@@ -469,6 +469,21 @@ def _unit_ids(args):
                     e = Event(timestamp=T0 + timedelta(seconds=n), duration=1, data={"n": n})
                     fresh = [cont(e)]
                     b.insert(e)
+                elif op == "ins_old":
+                    # an event OLDER than everything stored: insertion order and time order now differ
+                    # (seeded: id taken from the tail entry + a replace_last that sorts the list in place)
+                    n += 1
+                    e = Event(timestamp=T0 - timedelta(seconds=n), duration=1, data={"n": n})
+                    fresh = [cont(e)]
+                    b.insert(e)
+                elif op == "repl_move" and live:
+                    # the replacement moves the newest event behind all others in time
+                    newest = b.get(1)[0]
+                    n += 1
+                    e = Event(timestamp=T0 - timedelta(seconds=1000 + n), duration=2, data={"n": n})
+                    b.replace_last(e)
+                    if newest.id in model:
+                        model[newest.id] = cont(e)
                 elif op == "bulk2":
                     es = [Event(timestamp=T0 + timedelta(seconds=n + 1), duration=1, data={"n": n + 1}), Event(timestamp=T0 + timedelta(seconds=n + 2), duration=0, data={"n": n + 2})]
                     n += 2
